@@ -5,6 +5,7 @@ import sys
 from . import core
 from .query_replay import L, NOMAX, forest_of
 
+FALSY = (0, 0.0, False, None, 7, "")
 STYLE_NAMES = ("ascii", "cont", "contround", "double", "w1", "w3", "asciiclass")
 
 
@@ -80,6 +81,7 @@ def perform(q, par, ch, idx=0, family=None):
         lines = [content(lbl, j) for j in range(1, q["nl"][lbl] + 1)]
         o.lines = lines
         if family is None:
+            o.num = FALSY[len(N.Ctx.objs) % len(FALSY)]      # falsy but printable attribute values
             o.val = "\n".join(lines)
             o.vlist = list(lines)
             o.vtuple = tuple(lines)
@@ -113,6 +115,7 @@ def perform(q, par, ch, idx=0, family=None):
                          "by_attr(vtuple)": RenderTree(start, style=style, childiter=cfn, maxlevel=ml).by_attr("vtuple"),
                          "by_attr(callable)": RenderTree(start, style=style, childiter=cfn, maxlevel=ml).by_attr(lambda n: n.val)}
                 blank = RenderTree(start, style=style, childiter=cfn, maxlevel=ml).by_attr("no_such_attribute")
+                nums = RenderTree(start, style=style, childiter=cfn, maxlevel=ml).by_attr("num") if family is None else None
             except Exception as e:  # noqa
                 obs["bad"].append({"childiter": cname, "style": sname, "raised": "%s: %s" % (type(e).__name__, str(e)[:200])})
                 continue
@@ -124,6 +127,9 @@ def perform(q, par, ch, idx=0, family=None):
                 why = "rows on second iteration"
             elif blank != exp_blank:
                 why = "by_attr(missing attribute)"
+            elif nums is not None and nums != "\n".join(render(r["pre"], segs) + str(getattr(N.Ctx.objs[r["node"]], "num")) for r in q["rows"]):
+                why = "by_attr(missing attribute)"      # (same handling: a direct text mismatch)
+                obs.setdefault("notes", []).append("by_attr on falsy values (0, 0.0, False, None) must print str(value)")
             else:
                 for tn, tv in texts.items():
                     if tv != exp_text:
